@@ -34,7 +34,7 @@ Proof. exact old_concat_refuted. Qed.
 (** per-tomogram loaders of a batch and loaders derived by replace() carry every loader option (interpolation order, scale,
     output shape, corner_safe) of the loader they come from (generated call-binding facts) *)
 Theorem C03_options_forwarded : accessor_forwards_options = true /\ accessor_getitem_forwards_options = true /\
-  single_replace_forwards_options = true /\ batch_replace_forwards_options = true.
+  single_replace_forwards_options = true /\ batch_replace_forwards_options = true /\ mock_replace_forwards_options = true.
 Proof. repeat split; reflexivity. Qed.
 
 Print Assumptions C03_rows_aligned.
